@@ -80,6 +80,11 @@ SOURCES = {
 # ---------------------------------------------------------------------------
 # TLC
 # ---------------------------------------------------------------------------
+def act_key(a):
+    """must equal ActKey of Runtime.tla"""
+    return ":".join([a["op"], a["name"], a["to"], a["cid"], a["line"]])
+
+
 def tla_act(a):
     return '[op |-> "%s", name |-> "%s", to |-> "%s", cid |-> "%s", line |-> "%s"]' % (
         a["op"], a["name"], a["to"], a["cid"], a["line"])
@@ -98,15 +103,27 @@ def model(ctx, fam, maxops, maxlines=3, devs=(), invs=(), emit=False, view=None,
         c[d] = d in devs
     t = vlib.cfg_text(spec="Spec", constants=c, invariants=list(invs) + ["Emit"],
                       view="StateView" if view else None)
-    t = t.replace("CONSTANTS\n", "CONSTANTS\n  Names <- McNames\n  Prefixes <- McPrefixes\n")
+    t = t.replace("CONSTANTS\n", "CONSTANTS\n  Names <- McNames\n  ScriptNext <- McNext\n")
+    extra = {}
     if scripts:
-        sc = "{" + ",\n  ".join("<<" + ", ".join(tla_act(a) for a in s) + ">>" for s in scripts) + "}"
-        pre = "TLCEval(UNION {{SubSeq(s, 1, k) : k \\in 1..Len(s)} : s \\in McScripts})"
+        # the scripts as a trie: history key -> action keys that may follow (leaves: [])
+        trie = {}
+        for sc in scripts:
+            k = "^"
+            for a in sc:
+                ak = act_key(a)
+                nxt = trie.setdefault(k, [])
+                if ak not in nxt:
+                    nxt.append(ak)
+                k = k + "|" + ak
+            trie.setdefault(k, [])
+        extra["scriptnext.json"] = json.dumps(trie)
+        nxt = 'TLCEval(JsonDeserialize("scriptnext.json"))'
     else:
-        sc, pre = "{}", "{}"
-    mc = "---- MODULE RuntimeMC ----\nEXTENDS Runtime\nMcNames == %s\nMcScripts == %s\nMcPrefixes == %s\n====\n" % (
-        vlib.tla_value(list(names)), sc, pre)
-    return vlib.tlc(ctx, "RuntimeMC", t, extra_files={"RuntimeMC.tla": mc}, label=label or ("Runtime-" + fam), **kw)
+        nxt = "<<>>"
+    extra["RuntimeMC.tla"] = "---- MODULE RuntimeMC ----\nEXTENDS Runtime\nMcNames == %s\nMcNext == %s\n====\n" % (
+        vlib.tla_value(list(names)), nxt)
+    return vlib.tlc(ctx, "RuntimeMC", t, extra_files=extra, label=label or ("Runtime-" + fam), **kw)
 
 
 def check_coverage(res, fam):
@@ -292,7 +309,7 @@ def replay_file(ctx, pkg, path):
             vlib.log("replay: behaviour is explained by the deviating model")
 
 
-def parallel(jobs, limit=6):
+def parallel(jobs, limit=5):
     """Run callables concurrently (at most `limit` at a time, in the given order); re-raise the first exception."""
     with ThreadPoolExecutor(max_workers=max(1, min(limit, len(jobs)))) as ex:
         futs = [ex.submit(j) for j in jobs]
